@@ -71,6 +71,10 @@ CHECKS = {
             "bounded-exhaustive exploration of the real readers and writers: all numeric literals up to a length bound over a token alphabet through five readers, and complete tiny-LP product families through write -> read round trips, with an independent exact-arithmetic oracle (GMP/MPFR)",
             "All literals of length <= 6 (thorough: 7) over {+,-,0,1,5,9,.,e,E,/} that match the grammar plus a 595-literal exponent / long-mantissa family, each through ratFromString and through LP and MPS files read in rational and in real mode (objective, coefficient, sides, bounds positions): exact value by mpz/mpq cross-multiplication (non-canonical results reported distinctly), correctly rounded double by MPFR. Complete tiny-LP product families (all column-bound and row types, empty / free / ranged rows, zero objective, up to 3x2, 2x3, 7x2) x {LP,MPS} x {real,rational} x writeZeroObjective x names x integer markers x scaled/unscaled x value maps: the file is re-read into a fresh object and compared by name with the harness's exact model under the documented normalisations only; the dual writer is judged by exact basis enumeration of primal and dual.",
             "Trusted: GMP/MPFR arithmetic and the harness's model. Bounds are exhaustive but small (digits {0,1,5,9}, names <= 8 characters, objective offset 0). 12 genuine defects are recorded in known_findings.json; dual-MPS writing is limited to the 1x1 family while the null-tolerances defect is open."),
+    "C03": ("exploration", "DESIGN.md section 3 C03",
+            "bounded-exhaustive execution of exact solves over rational tiny-LP families x exact-solver option vectors within a deviation bound (thorough: the complete 2^13 product on a curated subset), every returned vector and value checked with zero tolerance in mpq arithmetic, true status from exact basis enumeration",
+            "Rational LPs with non-dyadic data ({-1,0,1/3,2}, sides/bounds from {-1/7,0,1,5/3,+-inf}) and lifting-range data ({1/4096,1,4096}) are entered through addColRational/addRowRational; every stride-th symmetry-reduced LP of four product families (2x2, 3x2, 2x3) is solved in SOLVEMODE_RATIONAL with zero tolerances under all option vectors with <= 2 deviations among the 13 exact-solver booleans x simplifier on/off (+ scaler off, manual sync): OPTIMAL needs exactly feasible primal, slack == A x, d == c - A^T y, admissible signs, zero duality gap, objValueRational == c x + offset and the true optimum; INFEASIBLE needs an exact Farkas separation, UNBOUNDED an exact improving ray; the status must be the exact class; vectors that keep reconstruction or factorization on must decide (a 200-round refinement limit turns non-termination into a verdict of the check).",
+            "Trusted: exact oracle. Four genuine defect groups of non-default exact-solver options are in known_findings.json; the default options pass completely. The objective-offset defect was fixed."),
 }
 
 NOT_YET = {}
